@@ -2,6 +2,7 @@
 From Coq Require Import String Permutation.
 From Verif Require Import Base.Str Base.Lines Base.Outcome Regex.Re Regex.Equiv Model.Patterns Model.ParseLine Model.Passes Model.CmdLine Model.Parser Model.Assembler Model.Generate.
 From Verif Require Import Proofs.EquivSound Proofs.PassesProofs Proofs.CmdLineProofs Proofs.ParserProofs Proofs.AssemblerProofs.
+From Verif Require Tie.Pin_calls_regex_operators_assembler_Operator_complete.
 From Verif Require Tie.Pin_lits_regex_operators_assembler_removeUnescapedMatches.
 From Verif Require Tie.Pin_lits_regex_operators_assembler_Operator_escapeDoublequotes Tie.Pin_lits_regex_operators_assembler_Operator_useHexBackslashes Tie.Pin_lits_regex_operators_assembler_Operator_useHexEscapes Tie.Pin_lits_regex_operators_assembler_Operator_includeVerticalTabInSpaceClass Tie.Pin_lits_regex_operators_assembler_Operator_dontUseFlagsForMetaCharacters Tie.Pin_lits_regex_operators_assembler_Operator_removeGroup Tie.Pin_lits_regex_operators_assembler_Operator_removeOutermostNonCapturingGroup Tie.Pin_lits_regex_operators_assembler_Operator_findGroupBodyEnd Tie.Pin_lits_utils_utils_IsEscaped Tie.Pin_lits_regex_utils_IsEscaped Tie.Pin_lits_regex_operators_assembler_Operator_startPreprocessor.
 Open Scope N_scope.
